@@ -227,16 +227,25 @@ fn mutate(r: &mut SplitMix64, m: &mut MMachine) {
                 0 => s.transitions[ei] = Some(vec![]),
                 1 => {
                     let v = s.transitions[ei].get_or_insert_with(|| vec![Trans(0, 1.0)]);
+                    if v.is_empty() {
+                        v.push(Trans(0, 1.0));
+                    }
                     let k = r.below(v.len() as u64) as usize;
                     v[k].0 = *r.pick(&[n, n + 1, STATE_END - 2, usize::MAX, STATE_SIGNAL, STATE_END]);
                 }
                 2 => {
                     let v = s.transitions[ei].get_or_insert_with(|| vec![Trans(0, 0.5)]);
+                    if v.is_empty() {
+                        v.push(Trans(0, 0.5));
+                    }
                     let t = v[0].0;
                     v.push(Trans(t, 0.25)); // duplicate target
                 }
                 3 => {
                     let v = s.transitions[ei].get_or_insert_with(|| vec![Trans(0, 1.0)]);
+                    if v.is_empty() {
+                        v.push(Trans(0, 1.0));
+                    }
                     let k = r.below(v.len() as u64) as usize;
                     v[k].1 = special_f32(r, v[k].1);
                 }
